@@ -28,6 +28,7 @@ Prior(T) ==
   ELSE IF T = "f64" THEN <<"f64", <<64, 30, 0, 0, 0, 0, 0, 0>>>>
   ELSE IF T = "str" THEN <<"str", <<112, 114, 105, 111, 114>>>>
   ELSE IF T = "null" THEN <<"nil">>
+  ELSE IF T = "enum_color" THEN <<"str", <<82, 101, 100>>>>          \* the first enumerator ("Red"): a value-initialised enum
   ELSE IF T = "tuple_i32_str_f64" THEN <<"arr", <<IntSmall(0), <<"str", <<>>>>, <<"f64", <<0, 0, 0, 0, 0, 0, 0, 0>>>>>>>>      \* default constructed
   ELSE IF T \in {"tp_ns", "tp_ms", "dur_ns"} THEN <<"ts", FALSE, Zeros(8), 0>>
   ELSE IF T \in {"tp_s", "dur_s"} THEN <<"dur", 1, IntSmall(0)>>
@@ -235,7 +236,8 @@ LoadLeaf(v, T0, pol) ==
   IF T0 = "pair_str_i32" THEN (IF ShapeOfPair(v) /\ IntFits(v[2][2][2][2], v[2][2][2][3], "i32") THEN <<"val", v>> ELSE <<"any">>)
   ELSE IF T0 = "tuple_i32_str_f64" THEN        \* std::tuple<int32_t, std::string, double>: an array whose elements load into the components
        (IF k = "nil" THEN <<"any">> ELSE IF k # "arr" THEN Mismatch(pol) ELSE IF Len(v[2]) # 3 THEN <<"any">> ELSE LoadTuple(v[2], pol, 1, <<>>))
-  ELSE IF T0 = "enum_color" /\ ~(k = "str" /\ v[2] \in EnumColorNames) THEN <<"any">>
+  ELSE IF T0 = "enum_color" /\ k = "str" /\ v[2] \notin EnumColorNames THEN Mismatch(pol)       \* a string that is not a registered name
+  ELSE IF T0 = "enum_color" /\ k # "str" THEN <<"any">>
   ELSE IF T0 # T /\ k = "nil" THEN <<"any">>                    \* null into optional / smart pointer: resets the target (left open here)
   ELSE IF T0 = "arr3_i32" /\ ~(k = "arr" /\ Len(v[2]) = 3) THEN <<"any">>
   ELSE IF pol.arch = "xml" THEN LoadLeafXml(v, T, pol)
